@@ -26,8 +26,11 @@ def sh(cmd, **kw):
     return subprocess.run(cmd, shell=True, cwd=WT, stdout=subprocess.PIPE, stderr=subprocess.STDOUT, text=True, env=ENV, **kw)
 
 
-def build():
-    r = sh("/venv/bin/python setup.py -q build_ext --inplace -j 16")
+HOOK = prop == "C17"      # demonstrations of C17 need the allocation-failure hook compiled in
+
+
+def build(hook=False):
+    r = sh(("BTREES_VERIF=1 " if hook else "") + "/venv/bin/python setup.py -q build_ext --inplace -j 16" + (" --force" if HOOK else ""))
     return r.returncode == 0
 
 
@@ -57,15 +60,23 @@ for d in diffs:
     touches_c = any(l.startswith("+++") and (l.strip().endswith(".c") or l.strip().endswith(".h")) for l in open(d))
     ok = build() if touches_c else True
     st = suite() if ok else "build failed"
+    if HOOK:
+        build(hook=True)
     rc, out = demo(os.path.join(OUT, name + "_demo.py"))
     sh("git checkout -- .")
     if touches_c:
         build()
+    if HOOK:
+        build(hook=True)
+        results[name] = {"suite": st, "demo_exit_mutated": rc, "demo_out": out, "touches_c": touches_c}
+        results[name]["demo_exit_clean_hook"] = demo(os.path.join(OUT, name + "_demo.py"))[0]
+        build()
+        continue
     results[name] = {"suite": st, "demo_exit_mutated": rc, "demo_out": out, "touches_c": touches_c}
 for name, r in results.items():
     if "demo_exit_mutated" not in r:
         continue
-    rc, out = demo(os.path.join(OUT, name + "_demo.py"))
+    rc, out = (r["demo_exit_clean_hook"], "") if HOOK else demo(os.path.join(OUT, name + "_demo.py"))
     r["demo_exit_clean"] = rc
     r["confirmed"] = ("1468 passed" in r["suite"]) and r["demo_exit_mutated"] == 1 and rc == 0
     if r["confirmed"]:
